@@ -118,6 +118,10 @@ def check_case(case):
       gin.parse_config('\n'.join(lines))
   if case.get('parse_scope'):
     labels.add('parsed-inside-a-scope')
+  if case.get('finalize'):
+    # a finalized (locked) configuration delivers references exactly like an unlocked one
+    gin.finalize()
+    labels.add('finalized-before-the-calls')
   ambient = case['ambient']
 
   def total_log():
@@ -227,7 +231,8 @@ def check_case(case):
         # the new tree (nothing about the old one may be remembered)
         param, tree = call['rebind']
         lines.append(f'cons.{param} = {render(tree)}')
-        gin.parse_config(lines[-1])
+        with gin.unlock_config():
+          gin.parse_config(lines[-1])
         bound[param] = tree
         cfg0, stored0 = gin.config_str(), stored_repr()
         labels.add('rebind-between-calls')
@@ -237,9 +242,10 @@ def check_case(case):
         # the configurable the name stands for *now*
         name = PRODUCERS[call['reregister'] % len(PRODUCERS)]
         api = case['producer_apis'][call['reregister'] % len(PRODUCERS)]
-        with gin.config.interactive_mode(), gin.config_scope(None):
-          prods[name] = build_producer(name, api)
-        gin.parse_config('\n'.join(lines))
+        with gin.unlock_config():
+          with gin.config.interactive_mode(), gin.config_scope(None):
+            prods[name] = build_producer(name, api)
+          gin.parse_config('\n'.join(lines))
         cfg0, stored0 = gin.config_str(), stored_repr()
         labels.add('producer-registered-again-then-reparse')
       args, kwargs, supplied = [], {}, {}
@@ -362,6 +368,7 @@ def strategy(draw):
                   'mutate': draw(st.booleans()) or draw(st.booleans())})
   return {
       'skip_unknown': draw(st.sampled_from([0, 0, 1, 2, 3])),
+      'finalize': draw(st.integers(0, 2)) == 0,
       'generator_producer': draw(st.sampled_from([None, None, None] + PRODUCERS)),
       'consumer_kind': draw(st.sampled_from(['function', 'function', 'class_init'])),
       'consumer_api': draw(st.sampled_from(['configurable', 'register', 'external'])),
